@@ -46,7 +46,7 @@ artefacts are in `seeded/<id>/` (`patch.diff`, `demo.py`, `notes.md`, `meta.json
 |---|---|---|---|---|
 ''' + "\n".join(rows) + '''
 
-**What the misses taught.** Three waves (20 + 20 + 35 changes). After each wave the checks that
+**What the misses taught.** Four waves (20 + 20 + 40 + 20 changes; the fourth wave's agents were told that every filter with up to three operators over a small alphabet is already compared and asked for something beyond such a sweep). After each wave the checks that
 missed a change were strengthened *in kind* (not by adding the failing input), all
 checks were re-run on the unchanged tree, and every earlier seed was re-checked
 (`tools/seed_recheck.sh`, also with another `VERIF_SEED`). All seeds above are detected by
@@ -87,6 +87,22 @@ the committed quick tier of their own property. The recurring blind spots:
   rarely used node kind in every well-typed argument position (C12), handlers attached
   after the first visit (C16), AST well-formedness of the returned node (C10), the nesting
   ORDER of unary-like operators over the same leaves (C09).
+* *Beyond the small-term sweep* (wave 4): behaviour that changes only past a size or depth
+  threshold (a nesting counter, a "long list" fast path, a memo that only fills at depth
+  five, balancing of long `and` chains). Every term-based check now has a *pumped* layer:
+  every self-composable constructor and every ordered pair of them stacked to depth 4-12
+  on the left and the right spine, bushy full binary trees, flat connective chains of up
+  to 12 clauses, and `in` lists of up to 600 elements (C01-C03, C05, C08, C09, C10, C13).
+  Rows that are equal only up to Unicode normalisation (`e\u0301` / `\u00e9`) are in the
+  TEXT domain of the database harnesses; C10 has keyword look-alike identifiers
+  (`nullable`, `notify`, `anyone`, `android`, ...) in every leaf position; C07 has payloads
+  that look like a bind-parameter template of each driver; C19 stretches every optional
+  blank to 1-64 blanks/tabs; C20 compares every menu text with the outcome of a *fresh
+  process per text*; C16 includes a transformer that rebuilds every node; C18 permutes
+  named parameters; C15's base-query menu has an aliased pre-join; C04/C12 filters
+  navigate two same-named relationships in ONE filter and compare the table-qualified
+  columns; C14 places the same clause under different outer binders with the same
+  innermost variable.
 
 '''
 s = s[:a] + text + s[b:]
